@@ -312,7 +312,7 @@ def rule_R4(ctx, typer, funcs):
                     if res.name == "getattr" and len(node.args) < 3:
                         ok = False
                 elif res.kind == "method":
-                    ok = res.name in ALLOWED_METHODS
+                    ok = res.name in ALLOWED_METHODS or _container_call_ok(ctx.p, f, ft, node)
                 elif res.kind == "callback":
                     ok = res.name == "cmp_"
                 elif res.kind == "ext":
@@ -335,6 +335,11 @@ def rule_R4(ctx, typer, funcs):
                         and -len(base.elts) <= node.slice.value < len(base.elts):
                     ctx.inst("R4", f, node, "index into a literal of sufficient length")
                     continue
+                lit = _literal_container(ctx.p, f, node.value)
+                if isinstance(lit, (ast.Tuple, ast.List)) and len(lit.elts) >= 2 and isinstance(node.slice, ast.Call) \
+                        and isinstance(node.slice.func, ast.Name) and node.slice.func.id == "bool":
+                    ctx.inst("R4", f, node, "index bool(...) into a constant sequence of at least two elements")
+                    continue
                 if _wild_table_of(ctx.p, f, node.value) is not None:
                     ctx.inst("R4", f, node, "lookup in the constant wildcard table (guarded by membership)")
                     continue
@@ -356,6 +361,46 @@ def rule_R4(ctx, typer, funcs):
                 else:
                     ctx.viol("R4", f, node, "index read `%s` is not dominated by a non-emptiness guard: IndexError on some path" % norm(node))
     return n
+
+
+def _literal_container(program, func, expr):
+    """the literal (or empty-constructor call) a name is bound to: a local bound exactly once, or a module constant"""
+    from .common import resolve_local
+    if not isinstance(expr, ast.Name):
+        return None
+    v = resolve_local(func, expr)
+    if v is expr:
+        r = program.resolve_name(func.module, expr.id)
+        v = r[1] if r is not None and r[0] == "const" else None
+    if isinstance(v, (ast.Dict, ast.Tuple, ast.List, ast.Set)):
+        return v
+    if isinstance(v, ast.Call) and isinstance(v.func, ast.Name) and v.func.id in ("set", "dict", "list") and not v.args and not v.keywords:
+        return v
+    return None
+
+
+_HASHABLE = frozenset(["str", "int", "id", "none"])
+
+
+def _container_call_ok(program, func, ft, call):
+    """set.add / dict.get on a container the function owns (or a module constant) with hashable arguments: cannot raise"""
+    f = call.func
+    if not isinstance(f, ast.Attribute) or call.keywords:
+        return False
+    lit = _literal_container(program, func, f.value)
+    if lit is None:
+        return False
+    kind = "dict" if isinstance(lit, ast.Dict) or isinstance(lit, ast.Call) and lit.func.id == "dict" else \
+        "set" if isinstance(lit, ast.Set) or isinstance(lit, ast.Call) and lit.func.id == "set" else "seq"
+
+    def hashable(e):
+        t = ft.type_of(e)
+        return t is not None and bool(t) and t <= _HASHABLE
+    if kind == "set" and f.attr == "add" and len(call.args) == 1:
+        return hashable(call.args[0])
+    if kind == "dict" and f.attr == "get" and 1 <= len(call.args) <= 2:
+        return hashable(call.args[0])
+    return False
 
 
 def _is_cache_lookup(node):
@@ -602,6 +647,20 @@ def _check_translation(ctx, typer, tr, patparam, result_expr):
                     ctx.inst("G1", tr, where, "wildcard table %s" % tab)
                 frag(e.args[1], which, where)
                 return
+        if isinstance(e, ast.BoolOp) and isinstance(e.op, ast.Or) and len(e.values) == 2:
+            # T.get(c) or re.escape(c): a table hit is a (non-empty, hence true) translation, a miss falls through
+            g = e.values[0]
+            if isinstance(g, ast.Call) and isinstance(g.func, ast.Attribute) and g.func.attr == "get" and len(g.args) == 1 \
+                    and isinstance(g.args[0], ast.Name) and g.args[0].id in tainted:
+                tab = _wild_table_of(ctx.p, tr, g.func.value)
+                if tab is not None:
+                    bad = [k for k, v in tab.items() if k not in ("*", "?") or not v or not _wild_ok(k, v)]
+                    if bad:
+                        ctx.viol("G1", tr, where, "wildcard table has entries that are not translations of '*'/'?': %s" % bad)
+                    else:
+                        ctx.inst("G1", tr, where, "wildcard table %s" % tab)
+                    frag(e.values[1], which, where)
+                    return
         if isinstance(e, ast.BinOp) and isinstance(e.op, ast.Add):
             frag(e.left, which, where)
             frag(e.right, which, where)
